@@ -45,12 +45,18 @@ partial def parseS (j : Json) : S :=
       let anyOf := (getArr j "anyOf").map parseS
       let items := match j.getObjVal? "items" with | .ok .null => none | .ok x => some (parseS x) | _ => none
       let nt := match j.getObjVal? "not" with | .ok .null => none | .ok x => some (parseS x) | _ => none
-      .node (getBool j "own") nt anyOf allOf items
+      let props := (getArr j "props").filterMap (fun kv => match kv with
+        | .arr #[.num k, x] => some (k.mantissa.toNat, parseS x) | _ => none)
+      let addl := match j.getObjVal? "addl" with | .ok .null => none | .ok x => some (parseS x) | _ => none
+      .node (getBool j "own") nt anyOf allOf items props addl
 
 open Recursion in
 partial def parseJ (j : Json) : J :=
   match j with
   | .arr xs => .arr (xs.toList.map parseJ)
+  | .obj _ => -- {"o": [[key, value], …]} with the keys in sorted order
+    .obj ((getArr j "o").filterMap (fun kv => match kv with
+      | .arr #[.num k, x] => some (k.mantissa.toNat, parseJ x) | _ => none))
   | .num n => .num n.mantissa.toNat
   | _ => .num 0
 
@@ -64,11 +70,13 @@ def handleSchema (j : Json) : Json :=
   let excl := !Recursion.guardedB defs
   let ecyc := Recursion.hasEmptinessCycle defs 400
   let model := match r with | .ok true => "accept" | .ok false => "reject" | .diverge => "diverge"
-  let anyRef := (Recursion.unguardedRefs root).length > 0 || defs.any (fun s => match s with | .node _ _ _ _ (some _) => true | _ => false)
+  let anyRef := (Recursion.unguardedRefs root).length > 0 || defs.any (fun s => match s with | .node _ _ _ _ (some _) _ _ => true | .node _ _ _ _ _ (_ :: _) _ => true | .node _ _ _ _ _ _ (some _) => true | _ => false)
   let uses (p : Recursion.S → Bool) : Bool := (root :: defs).any p
   let branches :=
-    (if uses (fun s => match s with | .node _ (some _) _ _ _ => true | _ => false) then ["rec.not"] else []) ++
-    (if uses (fun s => match s with | .node _ _ (_ :: _) _ _ => true | _ => false) then ["rec.anyOf"] else []) ++
+    (if uses (fun s => match s with | .node _ (some _) _ _ _ _ _ => true | _ => false) then ["rec.not"] else []) ++
+    (if uses (fun s => match s with | .node _ _ (_ :: _) _ _ _ _ => true | _ => false) then ["rec.anyOf"] else []) ++
+    (if uses (fun s => match s with | .node _ _ _ _ _ (_ :: _) _ => true | _ => false) then ["rec.properties"] else []) ++
+    (if uses (fun s => match s with | .node _ _ _ _ _ _ (some _) => true | _ => false) then ["rec.additionalProperties"] else []) ++
     (if cyc then ["rec.unguarded-cycle"] else []) ++
     (if ecyc then ["rec.emptiness-cycle"] else []) ++
     (if r = .ok true && anyRef then ["rec.accept"] else []) ++
